@@ -156,6 +156,17 @@ def _one(st, i):
     return x
 
 
+def kept_counters(repo):
+    """the counters the class really keeps: an attribute that no method of the class ever assigns does not exist (e.g. `_next` dropped in
+    favour of len(self._elts))"""
+    cls = repo.cls(UF, UFC)
+    out = set()
+    for n in ast.walk(cls):
+        if isinstance(n, ast.Attribute) and isinstance(n.ctx, ast.Store) and au.is_self_attr(n) and n.attr in COUNTERS:
+            out.add(n.attr)
+    return out
+
+
 def counter_delta(ex, st, c):
     """change of self.<c> along the path as an integer (None when not a constant change)"""
     final = st.heap.get("self." + c)
@@ -198,6 +209,8 @@ def u1_add(ctx):
         if R != 1:
             V.fail("one", "C20-U1", f"add registers {R} elements on one path", "one call adds one element")
         for c in COUNTERS:
+            if c not in kept_counters(repo):
+                continue
             d = counter_delta(ex, st, c)
             if d is None or isinstance(d, tuple):
                 V.und("counters", "C20-U1", f"how add changes {c} is not recognised")
@@ -248,6 +261,8 @@ def u1_init(ctx):
         bulk = []
         for f in sorted(STATE):
             v = first.get(f)
+            if v is None and f in COUNTERS and f not in kept_counters(repo):
+                continue
             if v is None:
                 V.und("empty", "C20-U1", f"__init__ does not initialise {f} with a plain assignment")
                 continue
@@ -648,7 +663,61 @@ def v1_views(ctx, routed=()):
         V.flush()
 
 
+def unpair(ex, d):
+    """a comprehension over a generator helper of the class that yields (element, self.find(element)) pairs for every element is rewritten
+    as the comprehension over the elements themselves (the root variable replaced by self.find(element))"""
+    g = d.generators[0]
+    c = g.iter
+    if not (isinstance(c, ast.Call) and isinstance(c.func, ast.Attribute) and isinstance(c.func.value, ast.Name) and c.func.value.id == "self"
+            and not c.args and not c.keywords and c.func.attr in ex.methods):
+        return d
+    m = ex.methods[c.func.attr]
+    body = [s_ for s_ in m.body if not (isinstance(s_, ast.Expr) and isinstance(s_.value, ast.Constant))]
+    if len(body) != 1 or not isinstance(body[0], ast.For) or not isinstance(body[0].target, ast.Name) or len(body[0].body) != 1:
+        return d
+    loop = body[0]
+    y = loop.body[0]
+    if not (isinstance(y, ast.Expr) and isinstance(y.value, ast.Yield) and isinstance(y.value.value, ast.Tuple) and len(y.value.value.elts) == 2):
+        return d
+    var = loop.target.id
+    kinds = []
+    for x in y.value.value.elts:
+        if isinstance(x, ast.Name) and x.id == var:
+            kinds.append("elem")
+        elif find_call(x, var):
+            kinds.append("root")
+        else:
+            return d
+    if sorted(kinds) != ["elem", "root"] or not (isinstance(g.target, ast.Tuple) and len(g.target.elts) == 2
+                                                 and all(isinstance(t, ast.Name) for t in g.target.elts)):
+        return d
+    names = dict(zip(kinds, [t.id for t in g.target.elts]))
+    ev = names["elem"] if names["elem"] != "_" else "_e"
+    mapping = {names["root"]: ast.Call(func=ast.Attribute(value=ast.Name(id="self", ctx=ast.Load()), attr="find", ctx=ast.Load()),
+                                       args=[ast.Name(id=ev, ctx=ast.Load())], keywords=[])}
+    if names["elem"] == "_":
+        mapping["_"] = ast.Name(id=ev, ctx=ast.Load())
+    new = type(d)()
+    if isinstance(d, ast.DictComp):
+        new.key, new.value = sym.subst(d.key, mapping), sym.subst(d.value, mapping)
+    else:
+        new.elt = sym.subst(d.elt, mapping)
+    new.generators = [ast.comprehension(target=ast.Name(id=ev, ctx=ast.Store()), iter=sym.clone(loop.iter),
+                                        ifs=[sym.subst(t, mapping) for t in g.ifs], is_async=0)]
+    return new
+
+
 def comp_of(ex, e):
+    d = _comp_of(ex, e)
+    if d is not None and isinstance(d, (ast.GeneratorExp, ast.SetComp, ast.ListComp)) and len(d.generators) == 1:
+        try:
+            return unpair(ex, d)
+        except Exception:
+            return d
+    return d
+
+
+def _comp_of(ex, e):
     """the comprehension behind set(<genexp>) / a set / list comprehension token -> (comprehension node, wrapper)"""
     for _ in range(3):
         if ex.kind(e) == "call":
@@ -901,6 +970,20 @@ def _filing(V, ex, st, key, what):
         V.und(key, "C20-V1", f"the loop of {what} over the elements is not recognised")
         return None
     adds = [ev for ev in st.events if ev.kind == "call" and ev.tail in ("add", "append") and len(ev.args) == 1 and au.src(ev.args[0]) in elems]
+    # other ways of putting the element in a group:  groups[key] = {e} / [e]   and   table[key](e) with table = {root: group.append ...}
+    for ev in st.events:
+        if ev.kind == "store" and isinstance(ev.target, ast.Subscript) and ex.kind(ev.value) == "display" \
+                and isinstance(ex.origin(ev.value), (ast.Set, ast.List)) and any(au.src(x) in elems for x in ex.origin(ev.value).elts):
+            fake = S.Event("call", ev.node, st, call=None, recv=ev.target, tail="add",
+                           args=[x for x in ex.origin(ev.value).elts if au.src(x) in elems][:1])
+            fake.nconds = ev.nconds
+            adds.append(fake)
+        elif ev.kind == "call" and isinstance(ev.call.func, ast.Subscript) and len(ev.args) == 1 and au.src(ev.args[0]) in elems \
+                and ex.kind(ev.call.func.value) == "display" and isinstance(ex.origin(ev.call.func.value), ast.DictComp) \
+                and isinstance(ex.origin(ev.call.func.value).value, ast.Attribute) and ex.origin(ev.call.func.value).value.attr in ("append", "add"):
+            fake = S.Event("call", ev.node, st, call=None, recv=ev.call.func, tail="append", args=list(ev.args))
+            fake.nconds = ev.nconds
+            adds.append(fake)
     slots = [e_[len("self._elts["):-1] for e_ in elems if e_.startswith("self._elts[")]
     if not adds and any(ev.kind == "call" and ev.tail in ("add", "append") and len(ev.args) == 1 and au.src(ev.args[0]) in slots for ev in st.events):
         V.fail(key, "C20-V1", f"{what} files the slot index of an element instead of the element itself",
@@ -937,10 +1020,9 @@ def _filing(V, ex, st, key, what):
         by_parent = [n for n in ast.walk(recv) if isinstance(n, ast.Subscript) and is_field(n.value, "_par")]
         if not keyed and not by_parent and not climbs(st) and parent_derived(ex, st, ev.recv) == "par":
             by_parent = [ev.recv]
-        if keyed and not guards:
+        if keyed:
+            # (a path of the iteration on which the element is NOT filed is judged where it occurs: here it is filed, under find(element))
             V.ok(key, "C20-V1", "element filed under find(element)")
-        elif keyed:
-            V.und(key, "C20-V1", f"{what} files an element under a condition")
         elif by_parent:
             V.fail(key, "C20-V1", f"{what} groups the elements by their parent pointer (self._par) instead of by self.find(element)",
                    "only the root of its tree identifies the component of an element: path halving does not flatten the trees, so members of "
